@@ -32,6 +32,32 @@ def _vt_bytes():
     return CL._VERIFICATION_TRAILER.pack()
 
 
+def _vt_variants():
+    """verification trailers with different command lists (all round-trip through the library's own codec)"""
+    import uuid
+
+    from dpapi_ng._rpc import _bind as B
+    from dpapi_ng._rpc import _pdu as P
+    from dpapi_ng._rpc import _verification as V
+
+    iface = B.SyntaxId(uuid.UUID("b9785960-524f-11df-8b6d-83dcded72085"), 1, 0)
+    ndr64 = B.SyntaxId(uuid.UUID("71710533-beba-4937-8319-b5dbef9ccc36"), 1, 0)
+    out = [_vt_bytes()]
+    mk = []
+    mk.append([V.CommandBitmask(flags=V.CommandFlags.SEC_VT_COMMAND_END, bits=1)])
+    mk.append([V.CommandBitmask(flags=V.CommandFlags.NONE, bits=1), V.CommandPContext(flags=V.CommandFlags.SEC_VT_COMMAND_END, interface_id=iface, transfer_syntax=ndr64)])
+    for opnum in (0, 3, 7):
+        mk.append([V.CommandBitmask(flags=V.CommandFlags.NONE, bits=opnum),
+                   V.CommandHeader2(flags=V.CommandFlags.SEC_VT_COMMAND_END, packet_type=P.PacketType.REQUEST, data_rep=P.DataRep(), call_id=1, context_id=opnum % 2,
+                                    opnum=opnum)])
+    for cmds in mk:
+        try:
+            out.append(V.VerificationTrailer(commands=cmds).pack())
+        except Exception:  # noqa: BLE001
+            continue
+    return out
+
+
 def impl_framing(arg):
     from dpapi_ng._rpc import _client as C
     from dpapi_ng._rpc._verification import VerificationTrailer
@@ -207,6 +233,16 @@ def gen_cases(ctx: Ctx):
     for n in range(0, 321, 1 if ctx.thorough else 4):
         stub = bytes((i * 7 + n) % 256 for i in range(n))
         cases.append([n % 2, 0, 0, 0, 0, 0, [[0, 1, stub, vt if n % 2 else None], [1, 2, stub[::-1], None]]])
+    # long sequences on one client in which every request carries a DIFFERENT verification trailer (each trailer object is created
+    # for its request and released afterwards: state keyed by object identity, or remembered from an earlier request, shows here)
+    vts = _vt_variants()
+    for fl in (0, 1):
+        for auth, sign, sig_len in ((1, 1, 16), (1, 0, 28), (0, 0, 0)):
+            reqs = []
+            for j in range(12 if not ctx.thorough else 40):
+                stub = bytes((j * 11 + i) % 256 for i in range(3 + j % 9))
+                reqs.append([j % 3, j % 4, stub, vts[(j * 5 + fl) % len(vts)] if (j % 4) else None])
+            cases.append([fl, auth, sign, sig_len, 10 if auth else 0, 2, reqs])
     cases.append([0, 1, 1, 16, 10, 0, [[65535, 65535, b"\x01" * 5, vt]]])
     cases.append([0, 1, 1, 16, 10, 0, [[0, 0, b"\x01" * 65600, None], [0, 0, b"ok", None]]])  # frag_len does not fit 16 bits: OverflowError, then a good one
     return cases
